@@ -108,6 +108,8 @@ def c12(F, R, tier):
 def c15(F, R, tier):
     import c15 as mod
     mod.check(F, R)
+    import c04rt
+    c04rt.check(F, R, tier, props=("C15",))
 
 
 @prop("C05",
@@ -120,6 +122,8 @@ def c05(F, R, tier):
     import c14
     c14.canonical_start(F, R)
     c14.loops(F, R)
+    import c04rt
+    c04rt.check(F, R, tier, props=("C05",))
 
 
 @prop("C04",
@@ -133,6 +137,8 @@ def c04(F, R, tier):
     c15.check(F, R)
     import c14
     c14.canonical_start(F, R)
+    import c04rt
+    c04rt.check(F, R, tier, props=("C04",))
 
 
 @prop("C17",
